@@ -3067,6 +3067,8 @@ fn encode_fixed_subframe<W: BitWrite>(
         fixed_orders
             .into_iter()
             .enumerate()
+            // the most negative 32-bit value is not a valid residual
+            .filter(|(_, residuals)| !residuals.contains(&i32::MIN))
             .min_by_key(|(_, residuals)| {
                 residuals[(residuals.len() - min_fixed)..]
                     .iter()
@@ -3074,7 +3076,7 @@ fn encode_fixed_subframe<W: BitWrite>(
                     .sum::<u64>()
             })
             .map(|(order, residuals)| (order as u8, &channel[0..order], residuals))
-            .unwrap()
+            .ok_or(Error::ResidualOverflow)?
     };
 
     writer.build(&SubframeHeader {
@@ -3194,6 +3196,8 @@ impl<'w, 'r> LpcSubframeParameters<'w, 'r> {
                             .sum::<i64>()
                             >> parameters.shift) as i32,
                     )
+                    // the most negative 32-bit value is not a valid residual
+                    .filter(|r| *r != i32::MIN)
                     .ok_or(ResidualOverflow)?,
             );
         }
